@@ -1,5 +1,5 @@
 """C18: the public union-find structures agree with a reference closure after any history (PARTIAL, see MANIFEST)."""
-from . import common, kani, unit_uf
+from . import common, kani, unit_uf, unit_trruf, unit_index
 from .extract import LostAnchor
 from .prop_agg import report_failures
 from .report import Outcome
@@ -13,6 +13,9 @@ TRUSTED = [
 
 def run(pid, tier):
     out = Outcome(pid, tier, 'other')
+    from concurrent.futures import ThreadPoolExecutor
+    _ex = ThreadPoolExecutor(max_workers=1)
+    _ftv = _ex.submit(unit_trruf.run_verus_part)
     try:
         unit = unit_uf.run_unit(tier)
     except (common.Inconclusive, LostAnchor) as ex:
@@ -30,6 +33,24 @@ def run(pid, tier):
                                 'may be unsatisfiable' % (unit_uf.CANARY, canary.get('status')))
     k['failures'] = [f for f in k['failures'] if f['harness'] != unit_uf.CANARY]
     report_failures(out, unit, 'ufcheck', tool_limit_fallback=True)
+    # ---- Verus: the subsumption forest of TrRelUnionFind (companion: the native trrel_uf histories)
+    tv = _ftv.result()
+    tr_native = [h for h in unit['native'] if h.startswith('trrel_uf_history')]
+    tr_native_clean = bool(tr_native) and not any(nf['harness'].startswith('trrel_uf_history') for nf in unit['native_failures'])
+    if tv['status'] == 'inconclusive':
+        msg = 'verus could not process the TrRelUnionFind forest unit (%s)' % (tv['inconclusive'] or '').strip().split('\n')[0][:300]
+        (out.proof_lost if tr_native_clean else out.inconclusive).append(msg + ('; the native histories of TrRelUnionFind passed' if tr_native_clean else ''))
+    for dg in tv.get('degraded') or []:
+        msg = 'the proof annotations of %s no longer fit the code (%s): its contract is ASSUMED in this run' % (dg['fn'], dg['why'][:200])
+        (out.proof_lost if tr_native_clean else out.inconclusive).append(msg + ('; the native histories of TrRelUnionFind passed' if tr_native_clean else ''))
+    for f in tv['failures']:
+        if tr_native_clean:
+            out.proof_lost.append('verus could not prove %s; the native histories of TrRelUnionFind (every add-history of the stated length over 4 items) found no failing input: '
+                                  'proof lost, no violation demonstrated.\n%s' % (f['obligation'], f['verifier_output'][:1500]))
+        elif not any(nf['harness'].startswith('trrel_uf_history') for nf in unit['native_failures']):
+            out.violation(f['obligation'], 'verus', f['verifier_output'])
+    tv_funcs = [f for f in tv['functions'] if f[0] and '__vacuity_canary' not in f[0]]
+    tv_ok = sum(1 for f in tv_funcs if f[2])
     hs = [h for h in k['harnesses'] if h != unit_uf.CANARY]
     ok = [h for h in hs if kres.get(h, {}).get('status') == 'SUCCESSFUL']
     complete = [h for h in hs if h in unit_uf.KANI_COMPLETE]
@@ -43,8 +64,8 @@ def run(pid, tier):
                        'BOUNDED native: the same contracts over every INV state of exactly n elements (pruned enumeration), the HashMap front end '
                        '(add / find_item / union_add / union_add_clone / find / len / ok) and TrRelUnionFind (add, contains, iter_all, set_of, rev_set_of, count_exact, '
                        'both internal consistency asserts) over every history of a stated length, against a reference partition / reflexive transitive closure.',
-        'obligations': len(hs),
-        'discharged': len(ok),
+        'obligations': len(hs) + len(tv_funcs),
+        'discharged': len(ok) + tv_ok,
         'checker_cmd': 'cargo kani --harness <%s> (in %s); ufcheck exhaust <harness> <domain>' % (', '.join(k['harnesses']), unit['crate']),
         'trusted_base': TRUSTED,
         'extraction': unit['extraction'],
@@ -52,6 +73,17 @@ def run(pid, tier):
         'inductive_step_bounded_in_size_kani': {h: {'status': kres.get(h, {}).get('status'), 'solver_s': kres.get(h, {}).get('time'), 'cbmc_checks': kres.get(h, {}).get('checks')}
                                                 for h in hs if h not in complete},
         'vacuity_canary_failed_as_required': canary_ok,
+        'verus_trrel_union_find_forest': {
+            'what': 'TrRelUnionFind (trrel_union_find.rs, extracted from the source file each run): class ids form an acyclic subsumption forest (rank witness); get_dominant_id and elem_set '
+                    'return the root; get_dominant_id_mut_with_depth / get_dominant_id_mut / elem_set_update (path compression, stale elem_ids refreshed) change the class of no element; '
+                    'the reported depth is the exact number of subsumption steps and cannot overflow (at most one step per subsumption); both recursions terminate. UNBOUNDED. '
+                    'add / add_set_connection / merge_multiple and the queries over the connection closure are NOT under contract (bounded native histories only).',
+            'functions_verified': tv_ok, 'functions_total': len(tv_funcs), 'solver_wall_s': round(tv.get('verus_s', 0.0), 2),
+            'real_functions_under_contract': [r_['fn'] for r_ in tv['log'].real_fns] if tv.get('log') else [],
+            'dropped_functions': tv['log'].dropped if tv.get('log') else [],
+            'rewrites_applied': {r_['rule']: r_['detail'][:80] for r_ in tv['log'].rewrites} if tv.get('log') else {},
+            'vacuity_canary_failed_as_required': tv.get('canary_ok', False),
+            'assumption_scan': unit_index.scan_assumptions(open(tv['path']).read()) if tv.get('path') else []},
         'bounded_native_not_counted': {h: {'evaluated': r['evaluated'], 'domain': r['domain'], 'failures': len(r['failures'])} for h, r in unit['native'].items()},
         'evaluations': evals,
         'distinct_nontrivial': evals,
@@ -61,6 +93,7 @@ def run(pid, tier):
         'functions_under_contract': ['ascent_byods_rels::uf::elems::Elem::union', 'ascent_byods_rels::uf::elems::Elem::union_by_rank', 'ascent_byods_rels::uf::elems::Elems::find',
                                      'ascent_byods_rels::uf::elems::Elems::push', 'ascent_byods_rels::uf::elems::Class::next (iter_class, iter_class_unchecked)',
                                      'ascent_byods_rels::uf::UnionFind::union_internal', 'ascent_byods_rels::uf::UnionFind::union'],
+        'functions_under_verus_contract': ['ascent_byods_rels::trrel_union_find::TrRelUnionFind::{get_dominant_id, get_dominant_id_mut_with_depth, get_dominant_id_mut, elem_set, elem_set_update}'],
         'functions_bounded_only': ['UnionFind::{add, add_clone, find, find_item, union_add, union_add_clone, len, is_empty, ok}', 'Elems::{ok, iter_classes}',
                                    'TrRelUnionFind::{add, contains, iter_all, set_of, rev_set_of, count_exact, is_empty, assert_disjoint_invariant, assert_set_connections_dominant_sets}'],
         'samples': [
